@@ -115,14 +115,17 @@ func (p *Processor) Run(ctx context.Context) error {
 					continue
 				}
 
+				// A segment that cannot be delivered ends this pass: going on to the
+				// next one would commit an offset past records that were never
+				// written, and the offset filter would then drop them for good.
 				state, err := p.store.LoadOffset(ctx, seg.Topic, seg.Partition)
 				if err != nil {
-					continue
+					break
 				}
 
 				batches, err := p.decode.Decode(ctx, seg.SegmentKey, seg.IndexKey)
 				if err != nil {
-					continue
+					break
 				}
 
 				records := mapBatches(batches)
@@ -141,7 +144,7 @@ func (p *Processor) Run(ctx context.Context) error {
 				err = p.sink.Write(ctx, records)
 				unlock()
 				if err != nil {
-					continue
+					break
 				}
 
 				last := records[len(records)-1]
